@@ -1150,6 +1150,18 @@ func (c *CharSet) addLowercaseRange(chMin, chMax rune) {
 			chMaxT = chMax
 		}
 
+		// The table predates the Unicode data of the unicode package, which the single-character path and the
+		// case equivalences use: where the two disagree (letters whose lower case moved, holes that are not
+		// letters) add what the unicode package says, one character at a time.
+		if !lcEntryAgrees(lc, chMinT, chMaxT) {
+			for ch := chMinT; ch <= chMaxT; ch++ {
+				if lower := unicode.ToLower(ch); lower != ch && (lower < chMin || lower > chMax) {
+					c.ranges = append(c.ranges, SingleRange{First: lower, Last: lower})
+				}
+			}
+			continue
+		}
+
 		switch lc.op {
 		case LowercaseSet:
 			chMinT = rune(lc.data)
@@ -1169,6 +1181,27 @@ func (c *CharSet) addLowercaseRange(chMin, chMax rune) {
 			c.ranges = append(c.ranges, SingleRange{First: chMinT, Last: chMaxT})
 		}
 	}
+}
+
+// lcEntryAgrees reports whether the table entry maps every character of [lo, hi] to its unicode.ToLower.
+func lcEntryAgrees(lc lcMap, lo, hi rune) bool {
+	for ch := lo; ch <= hi; ch++ {
+		var mapped rune
+		switch lc.op {
+		case LowercaseSet:
+			mapped = rune(lc.data)
+		case LowercaseAdd:
+			mapped = ch + lc.data
+		case LowercaseBor:
+			mapped = ch | 1
+		case LowercaseBad:
+			mapped = ch + (ch & 1)
+		}
+		if mapped != unicode.ToLower(ch) {
+			return false
+		}
+	}
+	return true
 }
 
 // Determines whether two sets could overlap.
